@@ -353,20 +353,20 @@ int main(int argc, char** argv) {
         if (queryParams.isWithAlternatives())
         {
           TrRouting::AlternativesResult alternativeResult = calculator.alternativesRouting(queryParams);
-          response = ResultToV2Response::resultToJsonString(alternativeResult, queryParams).dump(2);
+          response = ResultToV2Response::resultToJsonString(alternativeResult, queryParams).dump(2, ' ', false, nlohmann::json::error_handler_t::replace);
         }
         else
         {
           std::unique_ptr<TrRouting::SingleCalculationResult> routingResult = calculator.calculateSingle(queryParams);
           if (routingResult.get() != nullptr) {
-            response = ResultToV2Response::resultToJsonString(*routingResult.get(), queryParams).dump(2);
+            response = ResultToV2Response::resultToJsonString(*routingResult.get(), queryParams).dump(2, ' ', false, nlohmann::json::error_handler_t::replace);
           }
         }
 
         spdlog::info("-- route request complete -- {}", currentRequestId);
 
       } catch (NoRoutingFoundException &e) {
-        response = ResultToV2Response::noRoutingFoundResponse(queryParams, e.getReason()).dump(2);
+        response = ResultToV2Response::noRoutingFoundResponse(queryParams, e.getReason()).dump(2, ' ', false, nlohmann::json::error_handler_t::replace);
         spdlog::info("-- route request not found -- {}", currentRequestId);
 
       }
@@ -425,20 +425,20 @@ int main(int argc, char** argv) {
         if (queryParams.isWithAlternatives())
         {
           TrRouting::AlternativesResult alternativeResult = calculator.alternativesRouting(queryParams);
-          response = ResultToV2SummaryResponse::resultToJsonString(alternativeResult, queryParams).dump(2);
+          response = ResultToV2SummaryResponse::resultToJsonString(alternativeResult, queryParams).dump(2, ' ', false, nlohmann::json::error_handler_t::replace);
         }
         else
         {
           std::unique_ptr<TrRouting::SingleCalculationResult> routingResult = calculator.calculateSingle(queryParams);
           if (routingResult.get() != nullptr) {
-            response = ResultToV2SummaryResponse::resultToJsonString(*routingResult.get(), queryParams).dump(2);
+            response = ResultToV2SummaryResponse::resultToJsonString(*routingResult.get(), queryParams).dump(2, ' ', false, nlohmann::json::error_handler_t::replace);
           }
         }
 
         spdlog::info("-- summary request complete -- {}", currentRequestId);
 
       } catch (NoRoutingFoundException &e) {
-        response = ResultToV2SummaryResponse::noRoutingFoundResponse(queryParams, e.getReason()).dump(2);
+        response = ResultToV2SummaryResponse::noRoutingFoundResponse(queryParams, e.getReason()).dump(2, ' ', false, nlohmann::json::error_handler_t::replace);
         spdlog::info("-- summary request not found -- {}", currentRequestId);
       }
 
@@ -495,13 +495,13 @@ int main(int argc, char** argv) {
       try {
         std::unique_ptr<AllNodesResult> accessibilityResult = calculator.calculateAllNodes(queryParams);
         if (accessibilityResult.get() != nullptr) {
-          response = ResultToV2AccessibilityResponse::resultToJsonString(*accessibilityResult.get(), queryParams).dump(2);
+          response = ResultToV2AccessibilityResponse::resultToJsonString(*accessibilityResult.get(), queryParams).dump(2, ' ', false, nlohmann::json::error_handler_t::replace);
         }
 
         spdlog::info("-- accessibility request complete -- {}", currentRequestId);
 
       } catch (NoRoutingFoundException &e) {
-        response = ResultToV2AccessibilityResponse::noRoutingFoundResponse(queryParams, e.getReason()).dump(2);
+        response = ResultToV2AccessibilityResponse::noRoutingFoundResponse(queryParams, e.getReason()).dump(2, ' ', false, nlohmann::json::error_handler_t::replace);
         spdlog::info("-- accessibility request not found -- {}", currentRequestId);
       }
 
